@@ -367,7 +367,7 @@ func (ld *Layerdefs) RenameLayer(oldname, newname string) error {
 		child.Base = newname
 		err = ld.writeLayerFile(child)
 		if err != nil {
-			return nil
+			return err
 		}
 	}
 
